@@ -195,6 +195,14 @@ enum IOp {
     NextSource,
     /// create a wrapper and drop it without calling it
     WrapOnly,
+    /// wrapper.nth(1): one item skipped, the next returned
+    Nth1,
+    /// wrapper.skip(2).next()
+    Skip2Next,
+    /// wrapper.step_by(2).take(2): items 0 and 2 of the remaining source returned, item 1 skipped
+    StepBy2Take2,
+    /// wrapper.take(2).count(): two items consumed, none returned
+    Take2Count,
 }
 
 fn mk_src(kind: Src, n: usize) -> Box<dyn FnOnce() -> (Box<dyn Iterator<Item = Dc>>, Vec<u64>)> {
@@ -235,7 +243,18 @@ fn iter_case(kind: Src, n: usize, ops: &[IOp]) -> R {
     let mut trace = Vec::with_capacity(ops.len() * 2);
     let mut yielded_ids: Vec<usize> = Vec::with_capacity(n);
     for (step, op) in ops.iter().enumerate() {
+        // (value the wrapper returned, whether the model expects this pull to be returned to the caller)
         let mut results: Vec<Option<Dc>> = Vec::with_capacity(2);
+        // number of source pulls the model performs for this op, and which of them are returned (others are skipped)
+        let plan: Vec<bool> = match op {
+            IOp::NextNew | IOp::NextInto | IOp::NextAsCiter | IOp::NextSource => vec![true],
+            IOp::NextTwice => vec![true, true],
+            IOp::WrapOnly => vec![],
+            IOp::Nth1 => vec![false, true],
+            IOp::Skip2Next => vec![false, false, true],
+            IOp::StepBy2Take2 => vec![true, false, true],
+            IOp::Take2Count => vec![false, false],
+        };
         match op {
             IOp::NextNew => {
                 let mut w = CIterator::new(&mut src);
@@ -259,9 +278,44 @@ fn iter_case(kind: Src, n: usize, ops: &[IOp]) -> R {
                 let w = CIterator::new(&mut src);
                 drop(w);
             }
+            IOp::Nth1 => {
+                let mut w = CIterator::new(&mut src);
+                results.push(w.nth(1));
+            }
+            IOp::Skip2Next => {
+                let w = CIterator::new(&mut src);
+                results.push(w.skip(2).next());
+            }
+            IOp::StepBy2Take2 => {
+                let w = CIterator::new(&mut src);
+                let mut it = w.step_by(2);
+                results.push(it.next());
+                results.push(it.next());
+            }
+            IOp::Take2Count => {
+                let w = CIterator::new(&mut src);
+                let n = w.take(2).count();
+                trace.push(Some(n as u64));
+            }
         }
-        for r in results {
-            let want = model_next(kind, n, &vals, &mut pos, &mut gap_done);
+        // the model: pull from the source as the op would (adaptor ops are only enumerated over fused sources, where
+        // pulling again after the end changes nothing)
+        let mut wants: Vec<Option<u64>> = Vec::new();
+        for returned in &plan {
+            let w = model_next(kind, n, &vals, &mut pos, &mut gap_done);
+            if *returned {
+                wants.push(w);
+            }
+        }
+        // nth/skip on an exhausted source yield a single None for the op
+        let wants: Vec<Option<u64>> = match op {
+            IOp::Nth1 | IOp::Skip2Next => vec![wants.last().cloned().unwrap_or(None)],
+            _ => wants,
+        };
+        if !matches!(op, IOp::Take2Count) && results.len() != wants.len() {
+            return Err(("harness".into(), format!("step {}: model/result arity {} vs {}", step, wants.len(), results.len())));
+        }
+        for (r, want) in results.into_iter().zip(wants.into_iter()) {
             let got = r.as_ref().map(|d| d.val);
             ensure!(got == want, "iter:item", "step {} {:?}: wrapper yielded {:?}, the source yields {:?}", step, op, got, want);
             if let Some(d) = r {
@@ -272,11 +326,12 @@ fn iter_case(kind: Src, n: usize, ops: &[IOp]) -> R {
             trace.push(got);
         }
         ensure!(drops::bogus_drops() == 0, "iter:bogus", "step {}: a fabricated value was dropped", step);
-        // items not yet yielded must still be alive inside the source
+        // every item the source has handed out (returned to us or skipped by an adaptor) is dropped exactly once, the
+        // others are still alive inside the source
         for id in 0..n {
             let c = drops_scope.count(id);
-            let want = if yielded_ids.contains(&id) { 1 } else { 0 };
-            ensure!(c == want, "iter:item_drop", "step {}: item {} dropped {} time(s), expected {}", step, id, c, want);
+            let want = if id < pos { 1 } else { 0 };
+            ensure!(c == want, "iter:item_drop", "step {} {:?}: item {} dropped {} time(s), expected {} ({} items pulled from the source so far)", step, op, id, c, want, pos);
         }
     }
     drop(src);
@@ -298,7 +353,7 @@ fn run(f: impl FnOnce() -> R, nontrivial: bool) -> CaseOut {
 
 const SINKS: [Sink; 4] = [Sink::Closure, Sink::Vec, Sink::ExtendDeque, Sink::ExtendCustom];
 const PATHS: [Path; 6] = [Path::Call, Path::FeedInto, Path::FeedIntoMut, Path::Extend, Path::CallbackableOwned, Path::CallbackableRef];
-const IOPS: [IOp; 6] = [IOp::NextNew, IOp::NextInto, IOp::NextAsCiter, IOp::NextTwice, IOp::NextSource, IOp::WrapOnly];
+const IOPS: [IOp; 10] = [IOp::NextNew, IOp::NextInto, IOp::NextAsCiter, IOp::NextTwice, IOp::NextSource, IOp::WrapOnly, IOp::Nth1, IOp::Skip2Next, IOp::StepBy2Take2, IOp::Take2Count];
 const SRCS: [Src; 3] = [Src::VecIter, Src::Mapped, Src::Unfused];
 
 fn main() {
@@ -330,8 +385,8 @@ fn main() {
         Section {
             name: "iterators",
             explore: Box::new(|cx: &Cx| {
-                let (n_max, depth) = cx.tier.pick((3, 5), (5, 7));
-                cx.rule("iterators", &format!("source iterators (vec::IntoIter, map adaptor, a non-fused iterator with a None in the middle) of length 0..={} x every operation sequence of length <= {} over {{next via CIterator::new / From<&mut I> / as_citer, two nexts through one wrapper, next on the source directly, wrap-and-release}}; oracle: every call yields exactly what the source model yields, items are fresh items of the source, dropped exactly once, nothing fabricated", n_max, depth));
+                let (n_max, depth) = cx.tier.pick((4, 4), (5, 6));
+                cx.rule("iterators", &format!("source iterators (vec::IntoIter, map adaptor, a non-fused iterator with a None in the middle) of length 0..={} x every operation sequence of length <= {} over {{next via CIterator::new / From<&mut I> / as_citer, two nexts through one wrapper, next on the source directly, wrap-and-release, and (fused sources) the std adaptors nth(1), skip(2).next(), step_by(2) x2, take(2).count() on the wrapper}}; oracle: every call yields exactly what the source model yields, items are fresh items of the source, dropped exactly once, nothing fabricated", n_max, depth));
                 let mut nodes = 0u64;
                 for kind in SRCS {
                     for n in 0..=n_max {
@@ -342,6 +397,11 @@ fn main() {
                                 for _ in 0..len {
                                     ops.push(IOPS[idx % IOPS.len()]);
                                     idx /= IOPS.len();
+                                }
+                                // std's adaptors differ in how they treat a None in the middle of a non-fused source; that is
+                                // their business, not the wrapper's: adaptor ops are explored over the fused sources only
+                                if kind == Src::Unfused && ops.iter().any(|o| matches!(o, IOp::Nth1 | IOp::Skip2Next | IOp::StepBy2Take2 | IOp::Take2Count)) {
+                                    continue;
                                 }
                                 let case = json!({"src": kind, "n": n, "ops": ops});
                                 cx.eval("iterators", &case, || run(|| iter_case(kind, n, &ops), !ops.is_empty()));
